@@ -1,3 +1,4 @@
+import BlockCiphers.Proofs.GenTables
 import BlockCiphers.Proofs.DesWeak
 import BlockCiphers.Proofs.DesWeakMeaning
 import BlockCiphers.Proofs.AesNi
@@ -9,6 +10,12 @@ and is proved by applying it.  ONLY property theorems and non-vacuity examples l
 Every other type uses `KeyInit::weak_key_test`'s default (`Ok(())`): their registry models leave `CipherModel.weak` at its default `.ok`;
 the check's direct oracle runs `weak`/`newchecked` on every registry type.
 -/
+
+namespace BC.GenTables
+open BC.Gen
+theorem C13.des_WEAK_KEYS_eq : des_WEAK_KEYS.toList = (BC.Des.WEAK_KEYS_BYTES.map bytesBE).flatten :=
+  _root_.BC.GenTables.des_WEAK_KEYS_eq
+end BC.GenTables
 
 namespace BC.Des
 open BC.Spec.Des (stripParity weak56 weak64 weakKeys semiWeakKeys possiblyWeakKeys roundKeys degenerate C0 D0)
